@@ -504,7 +504,9 @@ def guard_rule(rep, prog, oks):
                     continue
                 for _tr, _ty, v in e["args"]:
                     d = deps_of(v)
-                    if some and d and d == alt_atoms:
+                    # the decoded altitude's own bits (the Q / M selector bits of the code belong to the field but not to every
+                    # alternative's value)
+                    if some and d and d <= alt_atoms and len(d) >= len(alt_atoms) - 2:
                         shown = True
                     if any("none" in t.lower() for t in _strs_in(v)):
                         none_word = True
